@@ -11,8 +11,12 @@ EXTENDS Integers, Sequences, FiniteSets, TLC, Json, IOUtils, SequencesExt
 TraceLog == ndJsonDeserialize(IOEnv.TRACE)
 (* which property is judged: C07 rejections must not hide the quiet points from C06 and vice versa *)
 Judge == IF "JUDGE" \in DOMAIN IOEnv THEN IOEnv.JUDGE ELSE "C07"
-VARIABLES ins, outs, flags, l, tid, bad
-tvars == <<ins, outs, flags, l, tid, bad>>
+VARIABLES ins, outs, flags, l, tid, bad,
+          exposed    \* ids whose input has been tearing down with a foreign finalizer but WITHOUT the controller's finalizer
+                     \* under the ignore-teardown-until option since the controller last put its finalizer on it: the
+                     \* named deviation InputFirstSeenTearingDown (open finding) - a reconcile of such an input runs the
+                     \* transform as if the input were running but cannot add the finalizer
+tvars == <<ins, outs, flags, l, tid, bad, exposed>>
 Empty == [x \in {} |-> 0]
 Put(f, k, v) == [x \in DOMAIN f \cup {k} |-> IF x = k THEN v ELSE f[x]]
 Del(f, k) == [x \in DOMAIN f \ {k} |-> f[x]]
@@ -20,10 +24,10 @@ Val(j) == [ver |-> j.ver, ph |-> j.phase, fins |-> ToSet(j.fins), val |-> j.val,
 F0 == [fin |-> FALSE, ignoreTd |-> FALSE, ignoreUntil |-> FALSE, cleanup |-> FALSE, ctrl |-> ""]
 (* cleanup configuration: the dependents of input id are the outputs id and id + 10 *)
 Dependents(os, id) == {o \in DOMAIN os : o % 10 = id}
-Init == ins = Empty /\ outs = Empty /\ flags = F0 /\ l = 1 /\ tid = "" /\ bad = FALSE
+Init == ins = Empty /\ outs = Empty /\ flags = F0 /\ l = 1 /\ tid = "" /\ bad = FALSE /\ exposed = {}
 Reject(what, exp, got) ==
   /\ PrintT(<<"MISMATCH", tid, l, what>>) /\ PrintT(<<"DETAIL", ToString(exp), ToString(got)>>)
-  /\ bad' = TRUE /\ UNCHANGED <<ins, outs, flags, tid>>
+  /\ bad' = TRUE /\ UNCHANGED <<ins, outs, flags, tid, exposed>>
 Keep == UNCHANGED <<flags, tid, bad>>
 Held(o) == "F" \in o.fins
 
@@ -40,6 +44,10 @@ Write(e) ==
       ni == IF e.kind = "in" THEN (IF e.op = "destroy" THEN Del(ins, e.id) ELSE Put(ins, e.id, v)) ELSE ins
       no == IF e.kind = "out" THEN (IF e.op = "destroy" THEN Del(outs, e.id) ELSE Put(outs, e.id, v)) ELSE outs
       fv == FinViolations(ni, no)
+      ne == IF e.kind = "in" /\ e.op # "destroy"
+            THEN (IF flags.ctrl \in v.fins THEN exposed \ {e.id}
+                  ELSE IF flags.ignoreUntil /\ v.ph = "tearingDown" /\ v.fins # {} THEN exposed \cup {e.id} ELSE exposed)
+            ELSE exposed
   IN
   IF Judge = "C07" /\ flags.cleanup /\ e.kind = "in" /\ e.op = "update" /\ e.id \in DOMAIN ins
      /\ flags.ctrl \in ins[e.id].fins /\ flags.ctrl \notin v.fins /\ Dependents(outs, e.id) # {}
@@ -47,11 +55,11 @@ Write(e) ==
   ELSE IF Judge = "C07" /\ ~flags.cleanup /\ e.kind = "out" /\ e.op = "destroy" /\ ~(v.ph = "tearingDown" /\ v.fins = {})
   THEN Reject("output-destroyed-without-teardown", "tearingDown, no finalizers", v)
   ELSE IF Judge = "C07" /\ flags.fin /\ fv # {} /\ FinViolations(ins, outs) = {}
-  THEN LET id == CHOOSE x \in fv : TRUE IN
-       Reject(IF flags.ignoreUntil /\ id \in DOMAIN ni /\ ni[id].ph = "tearingDown"
+  THEN LET id == IF fv \ ne # {} THEN CHOOSE x \in fv \ ne : TRUE ELSE CHOOSE x \in fv : TRUE IN
+       Reject(IF flags.ignoreUntil /\ id \in ne
               THEN "finalizer-not-on-input-ignore-teardown" ELSE "finalizer-not-on-input-while-output-exists",
               [id |-> id, input |-> IF id \in DOMAIN ni THEN ni[id] ELSE "absent", output |-> no[id]], e.op)
-  ELSE ins' = ni /\ outs' = no /\ Keep
+  ELSE ins' = ni /\ outs' = no /\ exposed' = ne /\ Keep
 
 Snap(js) == [id \in {j.id : j \in ToSet(js)} |-> Val((CHOOSE j \in ToSet(js) : j.id = id).v)]
 UnconvergedCleanup ==
@@ -69,19 +77,19 @@ Unconverged == IF flags.cleanup THEN UnconvergedCleanup ELSE UnconvergedTransfor
 Quiet(e) ==
   IF Snap(e.ins) # ins \/ Snap(e.outs) # outs THEN Reject("write-log-incomplete", [ins |-> ins, outs |-> outs], [ins |-> Snap(e.ins), outs |-> Snap(e.outs)])
   ELSE IF Judge = "C06" /\ Unconverged # {}
-  THEN LET id == CHOOSE x \in Unconverged : TRUE IN
-       Reject(IF flags.ignoreUntil /\ id \notin DOMAIN ins THEN "not-converged-ignore-teardown-orphan" ELSE "not-converged",
+  THEN LET id == IF Unconverged \ exposed # {} THEN CHOOSE x \in Unconverged \ exposed : TRUE ELSE CHOOSE x \in Unconverged : TRUE IN
+       Reject(IF flags.ignoreUntil /\ id \notin DOMAIN ins /\ id \in exposed THEN "not-converged-ignore-teardown-orphan" ELSE "not-converged",
               [id |-> id, input |-> IF id \in DOMAIN ins THEN ins[id] ELSE "absent"], IF id \in DOMAIN outs THEN outs[id] ELSE "absent")
-  ELSE UNCHANGED <<ins, outs>> /\ Keep
+  ELSE UNCHANGED <<ins, outs, exposed>> /\ Keep
 
 Next == /\ l <= Len(TraceLog) /\ l' = l + 1
         /\ LET e == TraceLog[l] IN
-             IF e.ev = "reset" THEN /\ ins' = Empty /\ outs' = Empty /\ tid' = e.tid /\ bad' = FALSE
+             IF e.ev = "reset" THEN /\ ins' = Empty /\ outs' = Empty /\ tid' = e.tid /\ bad' = FALSE /\ exposed' = {}
                                     /\ flags' = [fin |-> e.fin, ignoreTd |-> e.ignoreTd, ignoreUntil |-> e.ignoreUntil, cleanup |-> e.cleanup, ctrl |-> e.ctrl]
-             ELSE IF bad THEN UNCHANGED <<ins, outs, flags, tid, bad>>
+             ELSE IF bad THEN UNCHANGED <<ins, outs, flags, tid, bad, exposed>>
              ELSE CASE e.ev = "w" -> Write(e)
                     [] e.ev = "quiet" -> Quiet(e)
-                    [] OTHER -> UNCHANGED <<ins, outs, flags, tid, bad>>
+                    [] OTHER -> UNCHANGED <<ins, outs, flags, tid, bad, exposed>>
 Spec == Init /\ [][Next]_tvars
 Consumed == TLCGet("stats").diameter - 1
 Post == PrintT(<<"CONSUMED", Consumed>>) /\ Consumed = Len(TraceLog)
